@@ -266,6 +266,10 @@ class BitField(object):
 
         :param seqnum: The Sequence Number
         """
+        if self.current_seqnum == 0:
+            # nothing has been inserted. (the uninitialized value 0 and
+            # the maximum sequence number are the same point on the ring)
+            return False
         diff = self.current_seqnum.diff(seqnum)
         if diff == 0:
             return True
